@@ -14,6 +14,9 @@ UNIT_CHOICES = [
     {'temperature': 'kK'},
     {'molar enthalpy': 'kcal/mol'},
     {'molar entropy': 'cal/(mol*K)', 'molar heat capacity': 'kJ/(mol K)', 'temperature': 'K'},
+    # magnitudes far below 1e-4 and far above 1e6 in the written units (the writer must not fall into exponent notation or lose digits)
+    {'molar enthalpy': 'GJ/mol', 'molar entropy': 'MJ/(mol K)', 'molar heat capacity': 'GJ/(mol K)', 'temperature': 'GK'},
+    {'molar enthalpy': 'mJ/mol', 'molar entropy': 'uJ/(mol K)', 'molar heat capacity': 'nJ/(mol K)', 'temperature': 'uK'},
 ]
 
 
@@ -110,6 +113,8 @@ def run(ctx):
     for _ in range(ctx.n(150, 4000)):
         j = gen_corr(rng)
         j['units'] = [None] + rng.sample(UNIT_CHOICES[1:], ctx.n(2, 5))
+        if rng.random() < 0.3:
+            j['units'].append(rng.choice(UNIT_CHOICES[-2:]))
         jobs.append(j)
     infos = vlib.run_impl_sharded('thermo', [{'op': 'libinfo', 'lib': s} for s in thermogen.SHIPPED], timeout=900)
     for lib, info in zip(thermogen.SHIPPED, infos):
